@@ -138,14 +138,42 @@ func runC11(c *core.Ctx) {
 					return nil
 				}
 				first, second := argOf(bo.X), argOf(bo.Y)
-				// the first component is the smaller id under the dominating comparison
-				ordered := false
-				for _, f := range core.FactsAt(r.Block()) {
-					if (f.Op == "<" || f.Op == "<=") && first != nil && second != nil && f.A == core.ExprKey(first) && f.B == core.ExprKey(second) {
-						ordered = true
+				// the first component is the smaller id under the dominating comparison; when the two
+				// components are locals chosen by a comparison (phis of one block), each incoming edge is
+				// one case and the comparison is the one known on that edge
+				type symCase struct {
+					first, second ssa.Value
+					facts         []core.Fact
+				}
+				cases := []symCase{{first, second, core.FactsAt(r.Block())}}
+				if pf, ok := first.(*ssa.Phi); ok {
+					if ps, ok := second.(*ssa.Phi); ok && ps.Block() == pf.Block() {
+						cases = nil
+						for i, pred := range pf.Block().Preds {
+							var facts []core.Fact
+							for si, s := range pred.Succs {
+								if s == pf.Block() {
+									for _, cnd := range core.CondsOnEdge(pred, si) {
+										facts = append(facts, core.FactOf(cnd))
+									}
+									break
+								}
+							}
+							cases = append(cases, symCase{pf.Edges[i], ps.Edges[i], append(facts, core.FactsAt(r.Block())...)})
+						}
 					}
 				}
-				both := (first == p1 && second == p2) || (first == p2 && second == p1)
+				ordered, both := len(cases) > 0, len(cases) > 0
+				for _, cs := range cases {
+					o := false
+					for _, f := range cs.facts {
+						if (f.Op == "<" || f.Op == "<=") && cs.first != nil && cs.second != nil && f.A == core.ExprKey(cs.first) && f.B == core.ExprKey(cs.second) {
+							o = true
+						}
+					}
+					ordered = ordered && o
+					both = both && ((cs.first == p1 && cs.second == p2) || (cs.first == p2 && cs.second == p1))
+				}
 				c.Check(ordered && both, "C11/identifier-symmetric", name, r.Pos(), "the concatenation puts the smaller shard id first (dominating comparison of the two parameters)",
 					"the two shard ids are concatenated without a dominating comparison that puts the smaller one first: the identifier for (a, b) differs from the one for (b, a), the two directions use different topics")
 				continue
